@@ -61,6 +61,6 @@ def check(ctx):
         rule='cases: (i) every TLC-enumerated behaviour of the VectorSeq machine; (ii) per length 0..64 a reductions case (all ranges of sum_slice, every observer, find of present/absent values, out-of-domain ranges) and a products case '
              '(all ranges of product_slice); (iii) random histories of 100-300 operations incl. out-of-range arguments; (iv) exact scalar division; (v) complex vectors with integer moduli; (vi) general f64 vectors (norm clauses); '
              '(vii) linspace/powspace incl. a = b and end points 1..8 ulps apart in both directions (non-dyadic a, sizes 2..64, p = 1, 2, 0.5); (viii) all-zero vectors of every length 1..64 reached through x - x, x * 0, 0.0 * x, x *= 0, x -= x, assign(0), clear+resize, zeros(n), new(n, 0) (signed zeros included) under every norm/reduction; '
-             '(ix) per length special inputs: entries +-1, single non-zero entry, sorted / reverse-sorted with ties, all equal, duplicate maxima of opposite sign; float norm checks at x = 0, y = -x, alpha = 0. Operators may be adopted (x = x - y): the returned vector becomes the value under test. (x) dot and the ALIASED by-reference forms &v + &v, &v - &v, v.dot(&v) (same object on both sides; the specification is given the logged pre-state as second operand) for every length 0..64 on every element type also in quick, non-zero entries with all products positive. For Vec64 every dot event also runs the threaded dot_f64 on the same operands (default CPU affinity, aliased and two-object, all lengths 0..64, empty vectors also reached through clear() and resize(0)): same exact value, no panic. norm_p is also run with exponents next to whole numbers (k -+ 1 ulp, 2 ulp, 1e-15 .. 1e-8 for k = 1..8 inside [1, 8], the accumulated values of p += 0.1 and p += 0.25, 1 + 1e-9) on vectors whose k- and (k-1)-norms are far apart, against the reference evaluated with the same p. (xii) MAGNITUDE SWEEP: integer vectors with exactly representable 2-norm ([1,2,2] at every scale, Pythagorean and repeated/single entries rotating; all of them in thorough) scaled by 2^k for every k the definition admits (-1070..1000 for norm_1 / norm_inf / sum / sum_slice / abs; the range in which squares, products and their sums stay normal for norm_2, complex moduli, dot, dot_f64, product_slice); every result is logged as its exact integer multiple of the scale and compared by TLC with the operator applied to the unscaled vector; plus general data with entries at 2^k, 2^(k-1), 2^(k-3), 2^(k-10) for every k in -495..495 under the float-norm clauses. (xi) sign of zero: dot / sum / sum_slice / norm_1 (and dot_f64) accumulate from T::zero() = +0.0, so a zero result is +0.0 bit for bit whatever the signs of the zero terms; all -0.0 / all +0.0 / mixed / one non-zero entry among signed zeros for every length on f64 and Complex<f64>. Element types i64/Rat/f64/Complex<f64> rotate (quick) or are all used (thorough). An event is non-trivial if it panics, touches a non-empty vector or is a stand-alone constructor/float check; '
+             '(ix) per length special inputs: entries +-1, single non-zero entry, sorted / reverse-sorted with ties, all equal, duplicate maxima of opposite sign; float norm checks at x = 0, y = -x, alpha = 0. Operators may be adopted (x = x - y): the returned vector becomes the value under test. (x) dot and the ALIASED by-reference forms &v + &v, &v - &v, v.dot(&v) (same object on both sides; the specification is given the logged pre-state as second operand) for every length 0..64 on every element type also in quick, non-zero entries with all products positive. For Vec64 every dot event also runs the threaded dot_f64 on the same operands (default CPU affinity, aliased and two-object, all lengths 0..64, empty vectors also reached through clear() and resize(0)): same exact value, no panic. norm_p is also run with exponents next to whole numbers (k -+ 1 ulp, 2 ulp, 1e-15 .. 1e-8 for k = 1..8 inside [1, 8], the accumulated values of p += 0.1 and p += 0.25, 1 + 1e-9) on vectors whose k- and (k-1)-norms are far apart, against the reference evaluated with the same p. (xii) MAGNITUDE SWEEP: integer vectors with exactly representable 2-norm ([1,2,2] at every scale, Pythagorean and repeated/single entries rotating; all of them in thorough) scaled by 2^k for every k the definition admits (-1070..1000 for norm_1 / norm_inf / sum / sum_slice / abs; the range in which squares, products and their sums stay normal for norm_2, complex moduli, dot, dot_f64, product_slice); every result is logged as its exact integer multiple of the scale and compared by TLC with the operator applied to the unscaled vector; plus general data with entries at 2^k, 2^(k-1), 2^(k-3), 2^(k-10) for every k in -495..495 under the float-norm clauses. (xiii) Clone::clone_from as a mutator (the vector becomes a copy of the source: destinations longer / equal / shorter / empty) and == / != (operands sharing a prefix but differing in length) in the model, the design check, the per-size cases and the random histories of every element type. (xiv) cancellation family, lengths 16..64: huge terms 2^52 / 2^53 / 2^60 that cancel or combine exactly in left-to-right order at every residue mod 8 among zeros, small integers and halves; TLC recomputes the exact value of every range sum (coefficient per scale); exactness of sum / sum_slice / dot is demanded exactly for the ranges whose left-to-right partial sums are all representable (certified per range by the harness in 128-bit integers). (xi) sign of zero: dot / sum / sum_slice / norm_1 (and dot_f64) accumulate from T::zero() = +0.0, so a zero result is +0.0 bit for bit whatever the signs of the zero terms; all -0.0 / all +0.0 / mixed / one non-zero entry among signed zeros for every length on f64 and Complex<f64>. Element types i64/Rat/f64/Complex<f64> rotate (quick) or are all used (thorough). An event is non-trivial if it panics, touches a non-empty vector or is a stand-alone constructor/float check; '
              'distinct = distinct (operation, arguments, operand, outcome) tuples.',
         trusted=['harness projection of Vector<T> to integers (harness/src/util.rs jvec)', 'TLC', 'VectorSeq.tla operators as the reference definitions (cross-checked by MC_VectorSeq)', 'double-double reference evaluation (harness/src/dd.rs)'])
